@@ -139,6 +139,14 @@ def render (c : Ctl) : String :=
 
 def model (line : String) : String :=
   match words line with
+  | "storm" :: args =>
+    -- uncontrolled real concurrency: whatever the schedule, `C28_own_reply` + `C28_payload_exclusive` say that
+    -- no successful ask returns another request's reply
+    match args.mapM String.toNat? with
+    | some [rounds, fails, workers, per, kb] =>
+      if rounds < 1 || rounds > 200 || fails > 256 || workers < 1 || workers > 64 || per < 1 || per > 1000 || kb > 256
+      then "bad-case" else "wrong=0"
+    | _ => "bad-case"
   | "pool" :: mode :: mi :: it :: ops =>
     match mi.toNat? with
     | some mi =>
@@ -181,6 +189,10 @@ def sizeOf (ops : List String) (k : Nat) : Nat :=
 def judge (line : String) : String :=
   let (c, o) := splitTab line
   if o == "STALL" || o == "bad-case" then "ok" else
+  if (words c).head? == some "storm" then
+    (if o == "wrong=0" then "ok"
+     else s!"bad {o}: that many RemoteAsk calls returned, without error, a reply that is not the answer to their own request")
+  else
   let ops := (words c).drop 4
   let toks := (words o).filter fun w => w.contains '@'
   let bad := toks.filterMap fun w =>
